@@ -122,8 +122,12 @@ func (w *c07World) post(owner chain.Account, merkle []byte, size, maxProofs, exp
 }
 
 func (w *c07World) delete(signer chain.Account, ref postedRef) {
-	uf, existed := w.c.App.StorageKeeper.GetFile(w.f.Ctx, ref.Merkle, signer.Bech, ref.Start)
-	res := w.f.Exec(&storagetypes.MsgDeleteFile{Creator: signer.Bech, Merkle: ref.Merkle, Start: ref.Start})
+	spelled := signer.Bech
+	if ref.Start%3 == 0 { // now and then the owner's address is spelled in upper case (same account, valid bech32)
+		spelled = strings.ToUpper(signer.Bech)
+	}
+	uf, existed := w.c.App.StorageKeeper.GetFile(w.f.Ctx, ref.Merkle, spelled, ref.Start)
+	res := w.f.Exec(&storagetypes.MsgDeleteFile{Creator: spelled, Merkle: ref.Merkle, Start: ref.Start})
 	w.logf("deleteFile by %s merkle=%x start=%d (own live file=%v) -> %s", short(signer.Bech), ref.Merkle[:4], ref.Start, existed, res)
 	if existed && uf.Expires <= 0 && res.OK() {
 		w.removedSeen = true
